@@ -188,16 +188,36 @@ theorem getDerivedUnit_base (reg : Registry α) (hreg : RegistryWF reg) (key : S
 
 /-! ### human readable -/
 
+/-- what is required of a registry entry for the round trip: the int `1`, or `factor ×` a single unit object whose plain
+    symbol the unit-string parser resolves to a unit object of the same value (usually the very same object; chempy's own
+    `micromole` comes back as quantities' `umol`) -/
+def HRok (lookup : String → Option (List (SymUnit α × Int))) (e : RegEntry α) : Prop :=
+  e = .num 1 ∨ ∃ mag u u', e = .q mag [(u, 1)] ∧ lookup u.symbol = some [(u', 1)] ∧ u'.unit = u.unit
+
 theorem human_roundtrip (lookup : String → Option (List (SymUnit α × Int))) (reg : List (RegEntry α))
-    (h : ∀ e ∈ reg, e = .num 1 ∨ ∃ mag u, e = .q mag [(u, 1)] ∧ lookup u.uSymbol = some [(u, 1)]) :
-    ∃ hs, toHuman reg = .ok hs ∧ fromHuman lookup hs = .ok reg := by
+    (h : ∀ e ∈ reg, HRok lookup e) :
+    ∃ hs reg', toHuman reg = .ok hs ∧ fromHuman lookup hs = .ok reg' ∧
+      reg'.map RegEntry.value = reg.map RegEntry.value ∧
+      ((∀ e ∈ reg, e = .num 1 ∨ ∃ mag u, e = .q mag [(u, 1)] ∧ lookup u.symbol = some [(u, 1)]) → reg' = reg) := by
   induction reg with
-  | nil => exact ⟨[], by simp [toHuman], by simp [fromHuman]⟩
+  | nil => exact ⟨[], [], by simp [toHuman], by simp [fromHuman], rfl, fun _ => rfl⟩
   | cons e r ih =>
-    obtain ⟨hs, h1, h2⟩ := ih (fun x hx => h x (by simp [hx]))
-    rcases h e (by simp) with rfl | ⟨mag, u, rfl, hl⟩
-    · exact ⟨.one :: hs, by simp [toHuman, toHumanEntry, h1], by simp [fromHuman, fromHumanEntry, h2]⟩
-    · exact ⟨.fs mag u.uSymbol :: hs, by simp [toHuman, toHumanEntry, h1], by simp [fromHuman, fromHumanEntry, hl, h2]⟩
+    obtain ⟨hs, r', h1, h2, h3, h4⟩ := ih (fun x hx => h x (by simp [hx]))
+    rcases h e (by simp) with rfl | ⟨mag, u, u', rfl, hl, hu⟩
+    · refine ⟨.one :: hs, .num 1 :: r', by simp [toHuman, toHumanEntry, h1], by simp [fromHuman, fromHumanEntry, h2], by simp [h3], ?_⟩
+      intro hex
+      rw [h4 (fun x hx => hex x (by simp [hx]))]
+    · refine ⟨.fs mag u.symbol :: hs, .q mag [(u', 1)] :: r', by simp [toHuman, toHumanEntry, h1],
+        by simp [fromHuman, fromHumanEntry, hl, h2], by simp [h3, RegEntry.value, hu], ?_⟩
+      intro hex
+      rw [h4 (fun x hx => hex x (by simp [hx]))]
+      rcases hex (.q mag [(u, 1)]) (by simp) with hbad | ⟨mag2, u2, he, hl2⟩
+      · simp at hbad
+      · simp only [RegEntry.q.injEq, List.cons.injEq, Prod.mk.injEq, and_true] at he
+        obtain ⟨_, rfl⟩ := he
+        rw [hl] at hl2
+        simp only [Option.some.injEq, List.cons.injEq, Prod.mk.injEq, and_true] at hl2
+        rw [hl2]
 
 /-! ### Backend -/
 
@@ -387,5 +407,279 @@ theorem coeffUnit_spec (ux uy : PyVal α) (hx : ux.WF) (hy : uy.WF) (deg i : ℕ
   refine ⟨PyVal.mul_wf hy (PyVal.pow_wf hx _), ?_, ?_⟩
   · simp [coeffUnit, PyVal.mul_si, PyVal.pow_si]
   · simp [coeffUnit, PyVal.mul_dims hy (PyVal.pow_wf hx _), PyVal.pow_dims]
+
+/-! ### concatenate -/
+
+theorem concatGo_spec (u : PyVal α) (hu : u.WF) (arrays : List (List (PyVal α))) (hw : ∀ arr ∈ arrays, ∀ a ∈ arr, a.WF) :
+    ((∀ arr ∈ arrays, ∀ a ∈ arr, a.dims = u.dims) → concatGo u arrays = .ok (arrays.flatten.map fun a => a.si / u.si)) ∧
+    ((∃ arr ∈ arrays, ∃ a ∈ arr, a.dims ≠ u.dims) → concatGo u arrays = .error .valueError) := by
+  induction arrays with
+  | nil => exact ⟨fun _ => by simp [concatGo], by simp⟩
+  | cons arr r ih =>
+    obtain ⟨ih1, ih2⟩ := ih (fun x hx => hw x (by simp [hx]))
+    obtain ⟨f1, f2⟩ := toUnitlessFlat_spec arr u (hw arr (by simp)) hu
+    constructor
+    · intro h
+      simp [concatGo, f1 (h arr (by simp)), ih1 (fun x hx => h x (by simp [hx]))]
+    · rintro ⟨x, hx, a, ha, hne⟩
+      by_cases hbad : ∃ a ∈ arr, a.dims ≠ u.dims
+      · simp [concatGo, f2 hbad]
+      · have hgood : ∀ a ∈ arr, a.dims = u.dims := by
+          intro b hb; by_contra hc; exact hbad ⟨b, hb, hc⟩
+        rcases List.mem_cons.mp hx with rfl | hx
+        · exact absurd (hgood a ha) hne
+        · simp [concatGo, f1 hgood, ih2 ⟨x, hx, a, ha, hne⟩]
+
+/-- `unit_of` of a non-empty flat list is the unit of its first element (after the detour through `uniform`) -/
+theorem unitOf_list (h : PyVal α) (t : List (PyVal α)) (hw : ∀ a ∈ h :: t, a.WF) :
+    ((∀ a ∈ t, a.dims = h.dims) → unitOf (.list (h :: t)) = .ok (unitOfScalar h)) ∧
+    ((∃ a ∈ t, a.dims ≠ h.dims) → unitOf (.list (h :: t)) = .error .valueError) := by
+  have hu := unitOfScalar_wf (hw h (by simp))
+  have hud := unitOfScalar_dims h
+  obtain ⟨f1, f2⟩ := toUnitlessFlat_spec (h :: t) (unitOfScalar h) hw hu
+  constructor
+  · intro hc
+    have hall : ∀ a ∈ h :: t, a.dims = (unitOfScalar h).dims := by
+      intro a ha
+      rcases List.mem_cons.mp ha with rfl | ha
+      · exact hud.symm
+      · rw [hud]; exact hc a ha
+    simp [unitOf, uniformList, f1 hall, unitOfScalar_timesUnit]
+  · rintro ⟨a, ha, hne⟩
+    simp [unitOf, uniformList, f2 ⟨a, by simp [ha], by rw [hud]; exact hne⟩]
+
+/-- `concatenate`: `np.concatenate` of the magnitudes in the unit of the very first element, times that unit; physical values
+    = concatenation of the physical values; any element of another dimension → ValueError; no first element → IndexError -/
+theorem concatenate_spec (h : PyVal α) (t : List (PyVal α)) (rest : List (List (PyVal α)))
+    (hw : ∀ arr ∈ (h :: t) :: rest, ∀ a ∈ arr, a.WF) :
+    ((∀ arr ∈ (h :: t) :: rest, ∀ a ∈ arr, a.dims = h.dims) →
+      concatenate ((h :: t) :: rest) =
+        .ok (((((h :: t) :: rest).flatten).map fun a => a.si / (unitOfScalar h).si).map (timesUnit · (unitOfScalar h))) ∧
+      ∀ r, concatenate ((h :: t) :: rest) = .ok r → r.map PyVal.si = (((h :: t) :: rest).flatten).map PyVal.si) ∧
+    ((∃ arr ∈ (h :: t) :: rest, ∃ a ∈ arr, a.dims ≠ h.dims) → concatenate ((h :: t) :: rest) = .error .valueError) ∧
+    concatenate ([] : List (List (PyVal α))) = .error .indexError ∧
+    concatenate (([] : List (PyVal α)) :: rest) = .error .indexError := by
+  have hwh := hw (h :: t) (by simp)
+  have hu := unitOfScalar_wf (hwh h (by simp))
+  have hud := unitOfScalar_dims h
+  have hune := unitOfScalar_si_ne (hwh h (by simp))
+  obtain ⟨u1, u2⟩ := unitOf_list h t hwh
+  obtain ⟨g1, g2⟩ := concatGo_spec (unitOfScalar h) hu ((h :: t) :: rest) hw
+  refine ⟨?_, ?_, rfl, by simp [concatenate, unitOf, uniformList]⟩
+  · intro hc
+    have hc' : ∀ arr ∈ (h :: t) :: rest, ∀ a ∈ arr, a.dims = (unitOfScalar h).dims := by
+      intro arr harr a ha; rw [hud]; exact hc arr harr a ha
+    have ht : ∀ a ∈ t, a.dims = h.dims := fun a ha => hc (h :: t) (by simp) a (by simp [ha])
+    have hcat : concatenate ((h :: t) :: rest) =
+        .ok (((((h :: t) :: rest).flatten).map fun a => a.si / (unitOfScalar h).si).map (timesUnit · (unitOfScalar h))) := by
+      simp only [concatenate, u1 ht, g1 hc']
+    refine ⟨hcat, ?_⟩
+    intro r hr
+    rw [hcat] at hr; simp only [Except.ok.injEq] at hr; subst hr
+    exact map_timesUnit_si _ _ hune
+  · rintro ⟨arr, harr, a, ha, hne⟩
+    by_cases hbad : ∃ a ∈ t, a.dims ≠ h.dims
+    · simp only [concatenate, u2 hbad]
+    · have ht : ∀ a ∈ t, a.dims = h.dims := by
+        intro b hb; by_contra hcn; exact hbad ⟨b, hb, hcn⟩
+      have := g2 ⟨arr, harr, a, ha, by rw [hud]; exact hne⟩
+      simp only [concatenate, u1 ht, this]
+
+/-! ### polyval: Horner homogeneity -/
+
+/-- the dimensions `polyval` requires of the coefficients from index `i` on -/
+def coeffsCompat (ux uy : PyVal α) (deg : ℕ) : ℕ → List (PyVal α) → Prop
+  | _, [] => True
+  | i, v :: r => v.dims = (coeffUnit ux uy deg i).dims ∧ coeffsCompat ux uy deg (i + 1) r
+
+/-- the unitless coefficients `polyval` hands to `np.polyval` -/
+def coeffsSpec (ux uy : PyVal α) (deg : ℕ) : ℕ → List (PyVal α) → List α
+  | _, [] => []
+  | i, v :: r => v.si / (coeffUnit ux uy deg i).si :: coeffsSpec ux uy deg (i + 1) r
+
+theorem polyvalCoeffs_spec (ux uy : PyVal α) (hx : ux.WF) (hy : uy.WF) (deg : ℕ) (i : ℕ) (l : List (PyVal α))
+    (hl : ∀ v ∈ l, v.WF) :
+    (coeffsCompat ux uy deg i l → polyvalCoeffs ux uy deg i l = .ok (coeffsSpec ux uy deg i l)) ∧
+    (¬ coeffsCompat ux uy deg i l → polyvalCoeffs ux uy deg i l = .error .valueError) := by
+  induction l generalizing i with
+  | nil => exact ⟨fun _ => by simp [polyvalCoeffs, coeffsSpec], fun h => absurd trivial h⟩
+  | cons v r ih =>
+    obtain ⟨ih1, ih2⟩ := ih (i + 1) (fun w hw => hl w (by simp [hw]))
+    have hcw := (coeffUnit_spec ux uy hx hy deg i).1
+    have hv := hl v (by simp)
+    constructor
+    · rintro ⟨h1, h2⟩
+      have := (toUnitlessScalar_ok_iff hv hcw _).mpr ⟨h1, rfl⟩
+      simp [polyvalCoeffs, this, ih1 h2, coeffsSpec]
+    · intro hn
+      by_cases h1 : v.dims = (coeffUnit ux uy deg i).dims
+      · have := (toUnitlessScalar_ok_iff hv hcw _).mpr ⟨h1, rfl⟩
+        have h2 : ¬ coeffsCompat ux uy deg (i + 1) r := fun h2 => hn ⟨h1, h2⟩
+        simp [polyvalCoeffs, this, ih2 h2]
+      · have := (toUnitlessScalar_error_iff hv hcw _).mpr ⟨h1, rfl⟩
+        simp [polyvalCoeffs, this]
+
+/-- Horner's scheme is homogeneous: evaluating the unitless coefficients at the unitless argument and multiplying by `u_y`
+    is evaluating the physical coefficients at the physical argument -/
+theorem horner_homogeneous (ux uy : PyVal α) (hx : ux.WF) (hy : uy.WF) (ha : ux.si ≠ 0) (hb : uy.si ≠ 0) (deg : ℕ) (X : α)
+    (l : List (PyVal α)) (i : ℕ) (acc acc' : α)
+    (hacc : acc = uy.si * ux.si ^ ((i : ℤ) - 1 - (deg : ℤ)) * acc') :
+    (l.map PyVal.si).foldl (fun s c => s * X + c) acc =
+      uy.si * ux.si ^ (((i + l.length : ℕ) : ℤ) - 1 - (deg : ℤ)) *
+        (coeffsSpec ux uy deg i l).foldl (fun s c => s * (X / ux.si) + c) acc' := by
+  induction l generalizing i acc acc' with
+  | nil => simpa [coeffsSpec] using hacc
+  | cons v r ih =>
+    simp only [List.map_cons, List.foldl_cons, coeffsSpec, List.length_cons]
+    have hstep : acc * X + v.si =
+        uy.si * ux.si ^ (((i + 1 : ℕ) : ℤ) - 1 - (deg : ℤ)) * (acc' * (X / ux.si) + v.si / (coeffUnit ux uy deg i).si) := by
+      rw [(coeffUnit_spec ux uy hx hy deg i).2.1, hacc]
+      have e1 : (((i + 1 : ℕ) : ℤ) - 1 - (deg : ℤ)) = (i : ℤ) - (deg : ℤ) := by push_cast; ring
+      have e2 : ux.si ^ ((i : ℤ) - (deg : ℤ)) = ux.si ^ ((i : ℤ) - 1 - (deg : ℤ)) * ux.si := by
+        rw [← zpow_add_one₀ ha]; congr 1; ring
+      have hA : ux.si ^ ((i : ℤ) - 1 - (deg : ℤ)) ≠ 0 := zpow_ne_zero _ ha
+      rw [e1, e2]
+      field_simp
+    have := ih (i + 1) (acc * X + v.si) (acc' * (X / ux.si) + v.si / (coeffUnit ux uy deg i).si) hstep
+    rw [this]
+    congr 3
+    push_cast; ring
+
+/-- `polyval(p, x)` for a scalar `x`: it refuses coefficients whose dimension is not `dims u_y + (i−deg)·dims u_x`
+    (`u_x` the unit of `x`, `u_y` the unit of the last coefficient); otherwise the physical value of the result is the
+    polynomial of the physical coefficients at the physical argument, in the dimension of the constant coefficient -/
+theorem polyval_scalar_spec (p0 : PyVal α) (ps : List (PyVal α)) (x : PyVal α) (hp : ∀ v ∈ p0 :: ps, v.WF) (hx : x.WF) :
+    (coeffsCompat (unitOfScalar x) (unitOfScalar ((p0 :: ps).getLast (by simp))) ps.length 0 (p0 :: ps) →
+      ∃ r, polyval (p0 :: ps) (.scalar x) = .ok [r] ∧ r.si = plainPolyval ((p0 :: ps).map PyVal.si) x.si ∧
+        r.dims = ((p0 :: ps).getLast (by simp)).dims) ∧
+    (¬ coeffsCompat (unitOfScalar x) (unitOfScalar ((p0 :: ps).getLast (by simp))) ps.length 0 (p0 :: ps) →
+      polyval (p0 :: ps) (.scalar x) = .error .valueError) ∧
+    polyval ([] : List (PyVal α)) (.scalar x) = .error .indexError := by
+  have hplw : ((p0 :: ps).getLast (by simp)).WF := hp _ (List.getLast_mem _)
+  have hux := unitOfScalar_wf hx
+  have huy := unitOfScalar_wf hplw
+  have ha := unitOfScalar_si_ne hx
+  have hb := unitOfScalar_si_ne hplw
+  have hlast : (p0 :: ps).getLast? = some ((p0 :: ps).getLast (by simp)) := by
+    simp [List.getLast?_eq_getLast]
+  have hlen : (p0 :: ps).length - 1 = ps.length := by simp
+  obtain ⟨c1, c2⟩ := polyvalCoeffs_spec (unitOfScalar x) (unitOfScalar ((p0 :: ps).getLast (by simp))) hux huy ps.length 0 (p0 :: ps) hp
+  have hxs : toUnitlessScalar x (unitOfScalar x) = .ok (x.si / (unitOfScalar x).si) :=
+    (toUnitlessScalar_ok_iff hx hux _).mpr ⟨(unitOfScalar_dims x).symm, rfl⟩
+  refine ⟨?_, ?_, by simp [polyval, unitOf]⟩
+  · intro hc
+    refine ⟨timesUnit (plainPolyval (coeffsSpec (unitOfScalar x) (unitOfScalar ((p0 :: ps).getLast (by simp))) ps.length 0 (p0 :: ps))
+      (x.si / (unitOfScalar x).si)) (unitOfScalar ((p0 :: ps).getLast (by simp))), ?_, ?_, ?_⟩
+    · simp only [polyval, unitOf, hlast, hlen, c1 hc, hxs, Except.map, List.map_cons, List.map_nil]
+    · rw [timesUnit_si]
+      have := horner_homogeneous (unitOfScalar x) (unitOfScalar ((p0 :: ps).getLast (by simp))) hux huy ha hb ps.length x.si
+        (p0 :: ps) 0 0 0 (by simp)
+      simp only [plainPolyval, Nat.cast_zero] at this ⊢
+      rw [this]
+      have e : (((0 + (p0 :: ps).length : ℕ) : ℤ) - 1 - ((ps.length : ℕ) : ℤ)) = 0 := by
+        simp only [List.length_cons]; push_cast; ring
+      rw [e]; simp; ring
+    · rw [timesUnit_dims, unitOfScalar_dims]
+  · intro hn
+    simp only [polyval, unitOf, hlast, hlen, c2 hn]
+
+/-! ### polyfit: unit assignment -/
+
+/-- `polyfit`: `np.polyfit` (`fit`, a parameter) runs on the magnitudes in the units of `x[0]` and `y[0]`; coefficient `i` of its
+    result is given the unit `u_y/u_x^(deg−i)`; data of mixed dimension raise ValueError -/
+theorem polyfit_spec (fit : List α → List α → ℕ → List α) (x0 y0 : PyVal α) (xt yt : List (PyVal α)) (deg : ℕ)
+    (hxw : ∀ a ∈ x0 :: xt, a.WF) (hyw : ∀ a ∈ y0 :: yt, a.WF) :
+    ((∀ a ∈ xt, a.dims = x0.dims) → (∀ a ∈ yt, a.dims = y0.dims) →
+      ∃ r, polyfit fit (x0 :: xt) (y0 :: yt) deg = .ok r ∧
+        let cs := fit ((x0 :: xt).map fun a => a.si / (unitOfScalar x0).si) ((y0 :: yt).map fun a => a.si / (unitOfScalar y0).si) deg
+        r.length = cs.length ∧
+        ∀ i (h1 : i < r.length) (h2 : i < cs.length),
+          r[i].si = cs[i] * ((unitOfScalar y0).si * (unitOfScalar x0).si ^ ((i : ℤ) - (deg : ℤ))) ∧
+          r[i].dims = y0.dims.add (Dims.smul ((i : ℤ) - (deg : ℤ)) x0.dims)) ∧
+    ((∃ a ∈ xt, a.dims ≠ x0.dims) → polyfit fit (x0 :: xt) (y0 :: yt) deg = .error .valueError) := by
+  have hux := unitOfScalar_wf (hxw x0 (by simp))
+  have huy := unitOfScalar_wf (hyw y0 (by simp))
+  obtain ⟨fx1, fx2⟩ := toUnitlessFlat_spec (x0 :: xt) (unitOfScalar x0) hxw hux
+  obtain ⟨fy1, _⟩ := toUnitlessFlat_spec (y0 :: yt) (unitOfScalar y0) hyw huy
+  constructor
+  · intro hx hy
+    have hxa : ∀ a ∈ x0 :: xt, a.dims = (unitOfScalar x0).dims := by
+      intro a ha; rw [unitOfScalar_dims]
+      rcases List.mem_cons.mp ha with rfl | ha
+      · rfl
+      · exact hx a ha
+    have hya : ∀ a ∈ y0 :: yt, a.dims = (unitOfScalar y0).dims := by
+      intro a ha; rw [unitOfScalar_dims]
+      rcases List.mem_cons.mp ha with rfl | ha
+      · rfl
+      · exact hy a ha
+    have hpf : polyfit fit (x0 :: xt) (y0 :: yt) deg = .ok
+        ((fit ((x0 :: xt).map fun a => a.si / (unitOfScalar x0).si) ((y0 :: yt).map fun a => a.si / (unitOfScalar y0).si) deg).zipIdx.map
+          fun p => ((PyVal.num p.1).mul (unitOfScalar y0)).mul ((unitOfScalar x0).pow ((p.2 : ℤ) - (deg : ℤ)))) := by
+      simp only [polyfit, fx1 hxa, fy1 hya]
+    refine ⟨_, hpf, ?_⟩
+    refine ⟨by simp, ?_⟩
+    intro i h1 h2
+    simp only [List.getElem_map, List.getElem_zipIdx, Nat.zero_add]
+    constructor
+    · rw [PyVal.mul_si, PyVal.mul_si, PyVal.pow_si, PyVal.si_num]; ring
+    · rw [PyVal.mul_dims (scale_wf _ huy) (PyVal.pow_wf hux _), scale_dims, PyVal.pow_dims, unitOfScalar_dims, unitOfScalar_dims]
+  · rintro ⟨a, ha, hne⟩
+    have := fx2 ⟨a, by simp [ha], by rw [unitOfScalar_dims]; exact hne⟩
+    simp only [polyfit, this]
+
+/-! ### allclose: the test is a statement about physical values -/
+section Ordered
+variable {β : Type} [Field β] [LinearOrder β] [IsStrictOrderedRing β]
+
+theorem absv_eq (x : β) : absv x = |x| := by
+  unfold absv
+  split_ifs with h
+  · simp only [Nat.cast_zero] at h; exact (abs_of_neg h).symm
+  · simp only [Nat.cast_zero, not_lt] at h; exact (abs_of_nonneg h).symm
+
+theorem allclose_key (am bm fa fb rtol : β) (hfa : fa ≠ 0) :
+    |am - bm * (fb / fa)| ≤ |am| * rtol * (fa / fa) ↔ |am * fa - bm * fb| ≤ |am * fa| * rtol := by
+  have hpos : 0 < |fa| := abs_pos.mpr hfa
+  rw [div_self hfa, mul_one, ← mul_le_mul_iff_of_pos_right hpos, ← abs_mul]
+  have e1 : (am - bm * (fb / fa)) * fa = am * fa - bm * fb := by field_simp
+  have e2 : |am| * rtol * |fa| = |am * fa| * rtol := by rw [abs_mul]; ring
+  rw [e1, e2]
+
+/-- `allclose(a, b, rtol)` with `atol=None`: quantities of different dimension are never close (no exception); otherwise the
+    answer is the plain test `|a − b| ≤ |a|·rtol` on the PHYSICAL values — it does not depend on the units of `a` or `b` -/
+theorem allcloseScalar_none (a b : PyVal β) (ha : a.WF) (hb : b.WF) (rtol : β) :
+    (a.dims = b.dims → allcloseScalar a b rtol none = .ok (decide (|a.si - b.si| ≤ |a.si| * rtol))) ∧
+    (a.dims ≠ b.dims → allcloseScalar a b rtol none = .ok false) := by
+  have hfa := PyVal.asQuantity_factor_ne ha
+  constructor
+  · intro hd
+    cases a with
+    | num x =>
+      cases b with
+      | num y =>
+        simp [allcloseScalar, addLike, PyVal.asQuantity, Unit.one, absv_eq]
+      | qty q =>
+        have hd' : Dims.zero = q.unit.dims := hd
+        simp only [allcloseScalar, addLike, PyVal.asQuantity, Unit.one, ← hd', if_true, absv_eq, PyVal.si_num, PyVal.si_qty]
+        congr 1
+        exact decide_eq_decide.mpr (by simpa using allclose_key x q.mag 1 q.unit.factor rtol one_ne_zero)
+    | qty p =>
+      have hfp : p.unit.factor ≠ 0 := hfa
+      cases b with
+      | num y =>
+        have hd' : p.unit.dims = Dims.zero := hd
+        simp only [allcloseScalar, addLike, PyVal.asQuantity, Unit.one, hd', if_true, absv_eq, PyVal.si_num, PyVal.si_qty]
+        congr 1
+        exact decide_eq_decide.mpr (by simpa using allclose_key p.mag y p.unit.factor 1 rtol hfp)
+      | qty q =>
+        have hd' : p.unit.dims = q.unit.dims := hd
+        simp only [allcloseScalar, addLike, PyVal.asQuantity, hd', if_true, absv_eq, PyVal.si_qty]
+        congr 1
+        exact decide_eq_decide.mpr (allclose_key p.mag q.mag p.unit.factor q.unit.factor rtol hfp)
+  · intro hd
+    cases a <;> cases b <;> simp_all [allcloseScalar, addLike, PyVal.asQuantity, PyVal.dims, Unit.one]
+
+end Ordered
 
 end ChemModel.Units
